@@ -115,6 +115,7 @@ func RunTx(c Case) (verifkit.Outcome, error) {
 			case op.Kind == "unset":
 				err = view.Unset(t.rec, op.Req)
 			case m.SetSpins(op.Req, op.Val):
+				st.Label("unused-empty-map")
 				var verdict error
 				err, verdict = Guarded(when, func() error { return view.Set(t.rec, op.Req, DeepCopy(op.Val)) })
 				if verdict != nil {
@@ -258,6 +259,7 @@ func RunBag(c Case) (verifkit.Outcome, error) {
 			case op.Kind == "unset":
 				err = view.Unset(rec, op.Req)
 			case m.SetSpins(op.Req, op.Val):
+				st.Label("unused-empty-map")
 				var verdict error
 				err, verdict = Guarded(when, func() error { return view.Set(rec, op.Req, DeepCopy(op.Val)) })
 				if verdict != nil {
